@@ -7,6 +7,8 @@ import struct
 META = {'explanation': 'pack/_read_dtype_list arithmetic proved over token lists with symbolic lengths and values; the tokeniser is '
                        'checked by a bounded grammar enumeration against an independent reference.'}
 EXTRA_TASKS = ['grammar']
+# the exp-Golomb encoders/decoders are token kinds of pack/unpack: their contracts are re-run as part of C05
+ALSO_PROPS = ['C10']
 
 
 def enc(name, n, v):
@@ -149,6 +151,32 @@ def grammar(tier='quick', seed=0):
                 pass
             except Exception as e:
                 fails.append({'call': f'pack({plain!r}, *{bad!r})', 'observed': type(e).__name__, 'python': "FAILS = True"})
+    # struct-style tokens with several codes, counts and factors: 'k*<hB' is k repetitions of the *group*, i.e. struct.pack('<' + 'hB' * k)
+    import struct
+    ranges = {'b': (-128, 127), 'B': (0, 255), 'h': (-2 ** 15, 2 ** 15 - 1), 'H': (0, 2 ** 16 - 1), 'l': (-2 ** 31, 2 ** 31 - 1), 'L': (0, 2 ** 32 - 1),
+              'q': (-2 ** 63, 2 ** 63 - 1), 'Q': (0, 2 ** 64 - 1)}
+    for _ in range(300 if tier == 'quick' else 5000):
+        evals += 1
+        prefix = rng.choice('<>')
+        codes = ''.join(rng.choice('bBhHlLqQ') for _ in range(rng.randint(1, 3)))
+        counted = ''.join((str(rng.randint(2, 3)) if rng.random() < 0.25 else '') + c for c in codes)
+        flat = ''
+        for mm in __import__('re').finditer(r'(\d*)([bBhHlLqQ])', counted):
+            flat += mm.group(2) * int(mm.group(1) or 1)
+        k = rng.choice([1, 2, 2, 3])
+        spelled = rng.choice([f'{k}*{prefix}{counted}', f'{k}*({prefix}{counted})', ', '.join([prefix + counted] * k)])
+        vals = [rng.choice([ranges[c][0], ranges[c][1], 0, 1, rng.randint(*ranges[c])]) for c in flat * k]
+        want_bytes = struct.pack(prefix + flat * k, *vals)
+        try:
+            got = pack(spelled, *vals)
+            ok = got.tobytes() == want_bytes and len(got) == 8 * len(want_bytes) and got.unpack(spelled) == vals
+        except Exception:
+            ok = False
+        if not ok:
+            fails.append({'call': f'pack({spelled!r}, *{vals!r})', 'expected': f'struct.pack({prefix + flat * k!r}, ...)',
+                          'python': f"import bitstring, struct\nv = {vals!r}\ntry:\n    FAILS = bitstring.pack({spelled!r}, *v).tobytes() != struct.pack({prefix + flat * k!r}, *v)\nexcept Exception:\n    FAILS = True"})
+            if len(fails) > 5:
+                break
     # list formats: pack([f1, f2], ...) == pack(f1) + pack(f2), repeatable, and f1 alone still behaves afterwards
     for _ in range(60 if tier == 'quick' else 600):
         toks = [rand_token(rng) for _ in range(rng.randint(2, 4))]
